@@ -229,17 +229,19 @@ NOT_CLAIMED = {}
 
 # clauses added after the seeded-change rounds (appended to the claim text of the property)
 EXTRA = {
+    "C18": " Also: a True answer of the reserved-message test entails at least five octets (marker and message-type octet); the conversion's reads are in bounds.",
+    "C17": " Also: len() of a decoded data field equals the number of octets it packs to, for every construction rule / frame type / truncation case.",
     "C01": " Also: a setter that refuses a value has stored nothing on the path of the refusal (refusal atomicity); the too-short refusal of the decoder is taken only for buffers shorter than six octets.",
     "C02": " Also: every too-short refusal of the decoder implies that the buffer is shorter than the declared packet (no well-formed packet is refused), also when its guards are merged through max()/min().",
     "C04": " Also: the reads made while the CFDP checksum is verified and while its error object is built are in bounds, only documented classes escape from that routine, and the stale-CRC sequences are analysed with one object per observed serialisation.",
-    "C05": " Also: the decoder's too-short refusal is taken only for buffers shorter than the header the width codes give (a complete header is never refused).",
+    "C05": " Also: the decoder's too-short refusal is taken only for buffers shorter than the header the width codes give (a complete header is never refused). set_entity_ids with IDs of different widths and an out-of-range data-field length, applied to an existing header, store nothing on the path of the refusal.",
     "C06": " Also: for every directive the mutated-versus-fresh setter sequences of C11 are run, so that the data-field length is compared with the packed octets after changes through setters; the Finished PDU is analysed for both condition codes whose fault location is not transmitted.",
     "C08": " Also: second file name and filestore message of the filestore TLVs are located per action code and first-name length (offsets counted in octets); for a well-formed TLV of a foreign type no refusal other than the type-mismatch error precedes the type check; a complete TLV/LV (also with an empty value) is never refused as too short; equality of generic TLVs/LVs mentions type and value.",
-    "C09": " Also: no decoder stores into an object created at module level (nothing is carried from one call to the next); the first iteration of every decoder loop is analysed from the real entry state, so its reads are decided exactly.",
-    "C10": " Also: for every decoder of a self-delimiting unit a normal return implies len(buffer) >= declared length (strict prefixes are refused); arguments of raised exceptions are analysed like other expressions; the first iteration of every loop is decided exactly.",
+    "C09": " Also: no decoder stores into an object created at module level (nothing is carried from one call to the next); the first iteration of every decoder loop is analysed from the real entry state, so its reads are decided exactly. Indexing a byte string that was copied from the input is a read like any other; loops whose test has a concretely bounded part are unrolled under the symbolic rest of the test (their reads are then decided instead of being declared undecided); the stream parser is analysed through its scan part, whatever its helpers are called.",
+    "C10": " Also: for every decoder of a self-delimiting unit a normal return implies len(buffer) >= declared length (strict prefixes are refused); arguments of raised exceptions are analysed like other expressions; the first iteration of every loop is decided exactly. Indexing a byte string that was copied from the input is a read like any other (IndexError when the copy is shorter).",
     "C11": " Also: after each setter sequence the reported length equals the length of the packed stream; every setter whose recomputation can refuse the new value (12 listed setters) leaves the object unchanged on that path; the 16-bit data-field-length bound through which all recomputed PDU lengths are stored is checked.",
     "C13": " Also: the whole scan part (index initialisation to the end of the scan loop) is interpreted over one symbolic buffer with three peeled iterations and all its reads are proven in bounds, which covers state carried from one iteration to the next.",
-    "C14": " Also: from_datetime is decided either as the integer timedelta form ((datetime - Unix epoch).days/.seconds/.microseconds, exact for every microsecond value) or by evaluating the extracted millisecond term on witness timestamps (whole milliseconds whose fraction is not a binary fraction, a .9996 fraction, a pre-1970 instant); a form that is neither recognised nor refuted is reported as undecided.",
+    "C14": " Also: from_datetime is decided either as the integer timedelta form ((datetime - Unix epoch).days/.seconds/.microseconds, exact for every microsecond value) or by evaluating the extracted millisecond term on witness timestamps (whole milliseconds whose fraction is not a binary fraction, a .9996 fraction, a pre-1970 instant); a form that is neither recognised nor refuted is reported as undecided. The UTC-datetime view is evaluated on witness field values on both sides of 1970 against 1958-01-01 + days + milliseconds (refuted with the witness; otherwise declared undecided because it goes through float seconds). from_datetime also accepts the total-millisecond form ((datetime - epoch) // timedelta(milliseconds=1), divmod by 86400000).",
     "C15": " Also: the service-1 decoder stores nothing into module-level objects (decoded reports do not share parameter objects); the request-id decoder refuses only buffers shorter than four octets.",
     "C20": " Also: a refused assignment through the value setter (integer or octet form) has stored nothing on the path of the refusal.",
 }
